@@ -87,6 +87,17 @@ func catalogue() []catEntry {
 			blk.ValidatorsHash = flipHash(blk.ValidatorsHash)
 			return true
 		}},
+		{name: "recover-flag-with-wrong-validators-hash", apply: func(b *byzActor, blk *types.Block, rs *cstypes.RoundState) bool {
+			// Header.Recover is not covered by the block hash and waives the
+			// validators-hash comparison: in normal mode such a block must never be
+			// voted for
+			if b.cl.cfg.LongStall > 0 || b.cl.recoverSeen {
+				return false // in recover mode the waiver is the design
+			}
+			blk.ValidatorsHash = flipHash(blk.ValidatorsHash)
+			blk.Recover = 1
+			return true
+		}},
 		{name: "consensus-params-hash", apply: func(b *byzActor, blk *types.Block, rs *cstypes.RoundState) bool {
 			blk.ConsensusHash = flipHash(blk.ConsensusHash)
 			return true
@@ -105,37 +116,44 @@ func catalogue() []catEntry {
 			return true
 		}},
 		{name: "last-commit-under-quorum", minHeight: 2, apply: func(b *byzActor, blk *types.Block, rs *cstypes.RoundState) bool {
-			// drop precommits until the remaining power is <= 2/3 of the previous validators
+			// keep the heaviest subset of the precommits whose power is still
+			// <= 2/3 of the previous validators (so that "exactly two thirds",
+			// also in the integer arithmetic of total*2/3, is offered whenever the
+			// powers allow it)
 			pcs := copyVotes(blk.LastCommit.Precommits)
 			total := rs.LastValidators.TotalVotingPower()
-			var have int64
+			var present []int
 			for i, v := range pcs {
 				if v != nil {
-					_, val := rs.LastValidators.GetByIndex(i)
-					have += val.VotingPower
+					present = append(present, i)
 				}
 			}
-			for i := range pcs {
-				if 3*have <= 2*total {
-					break
+			if len(present) == 0 || len(present) > 16 {
+				return false
+			}
+			best, bestPower := -1, int64(-1)
+			for mask := 1; mask < 1<<uint(len(present)); mask++ {
+				var have int64
+				for k, i := range present {
+					if mask&(1<<uint(k)) != 0 {
+						_, val := rs.LastValidators.GetByIndex(i)
+						have += val.VotingPower
+					}
 				}
-				if pcs[i] != nil {
-					_, val := rs.LastValidators.GetByIndex(i)
-					have -= val.VotingPower
+				if 3*have <= 2*total && have > bestPower {
+					best, bestPower = mask, have
+				}
+			}
+			if best < 0 {
+				return false
+			}
+			for k, i := range present {
+				if best&(1<<uint(k)) == 0 {
 					pcs[i] = nil
 				}
 			}
-			if 3*have > 2*total {
-				return false
-			}
-			left := 0
-			for _, v := range pcs {
-				if v != nil {
-					left++
-				}
-			}
-			if left == 0 {
-				return false // the all-nil commit is its own entry
+			if bestPower == total*2/3 {
+				b.cl.c.Probe("catalogue-last-commit-at-integer-two-thirds")
 			}
 			setCommit(blk, freshCommit(blk.LastCommit.BlockID, pcs))
 			return true
@@ -243,6 +261,12 @@ func catalogue() []catEntry {
 		}},
 		{name: "evidence-missing-fault-validators", minHeight: 2, apply: func(b *byzActor, blk *types.Block, rs *cstypes.RoundState) bool {
 			setEvidence(blk, nil)
+			return true
+		}},
+		{name: "h1-fault-validators-evidence", onlyH1: true, apply: func(b *byzActor, blk *types.Block, rs *cstypes.RoundState) bool {
+			// the first block has no previous height to give an account of
+			fvi := &types.FaultValidatorsEvidence{BlockHeight: blk.Height - 1, Round: 0, Proposer: rs.Validators.GetProposer().PubKey}
+			setEvidence(blk, []types.Evidence{fvi})
 			return true
 		}},
 		{name: "evidence-two-fault-validators", minHeight: 2, apply: func(b *byzActor, blk *types.Block, rs *cstypes.RoundState) bool {
